@@ -1,8 +1,6 @@
 package service
 
 import (
-	"crypto/sha256"
-	"encoding/hex"
 	"time"
 
 	"github.com/jcmturner/gokrb5/v8/credentials"
@@ -10,22 +8,6 @@ import (
 	"github.com/jcmturner/gokrb5/v8/messages"
 	"github.com/jcmturner/gokrb5/v8/types"
 )
-
-// replayServiceName names the service an authenticator was presented to for the replay cache. The service name in the
-// ticket is not protected by anything and may not even have selected the key (keytab principal override, several names
-// of one account): the service is identified by the key the ticket was sealed with.
-func replayServiceName(APReq *messages.APReq, s *Settings) types.PrincipalName {
-	sn := APReq.Ticket.SName
-	if kp := s.KeytabPrincipal(); kp != nil {
-		sn = *kp
-	}
-	key, _, err := s.Keytab.GetEncryptionKey(sn, APReq.Ticket.Realm, APReq.Ticket.EncPart.KVNO, APReq.Ticket.EncPart.EType)
-	if err != nil {
-		return sn
-	}
-	h := sha256.Sum256(key.KeyValue)
-	return types.PrincipalName{NameType: sn.NameType, NameString: []string{hex.EncodeToString(h[:])}}
-}
 
 // VerifyAPREQ verifies an AP_REQ sent to the service. Returns a boolean for if the AP_REQ is valid and the client's principal name and realm.
 func VerifyAPREQ(APReq *messages.APReq, s *Settings) (bool, *credentials.Credentials, error) {
@@ -41,8 +23,12 @@ func VerifyAPREQ(APReq *messages.APReq, s *Settings) (bool, *credentials.Credent
 	}
 
 	// Check for replay
+	// The authenticator is remembered by client and client time alone. Nothing in a request that names the service is
+	// protected - the ticket's sname, kvno and etype are clear text, a service has several names and several keys, a
+	// renewed ticket is sealed under another key than the original - so a cache partitioned by service would let a
+	// replay through under another label.
 	rc := GetReplayCache(s.MaxClockSkew())
-	if rc.IsReplay(replayServiceName(APReq, s), APReq.Authenticator) {
+	if rc.IsReplay(types.PrincipalName{}, APReq.Authenticator) {
 		return false, creds,
 			messages.NewKRBError(APReq.Ticket.SName, APReq.Ticket.Realm, errorcode.KRB_AP_ERR_REPEAT, "replay detected")
 	}
